@@ -459,6 +459,13 @@ func (r *Run) jobMain(j *JobRec) int {
 			r.Logical[lp] = p
 			return lp
 		}
+		if r.Cfg.CanonicalPaths && r.RealPs != "" && strings.HasPrefix(p, r.PsDir+"/") &&
+			hash64(r.FCfg.Salt, j.Key(), j.Phase, name, "canonical")%2 == 0 {
+			// the stage reports the physical path of its file (pwd -P, realpath)
+			r.Faults["stage-reports-canonical-path"]++
+			r.Files[p].Canonical = true
+			return r.RealPs + p[len(r.PsDir):]
+		}
 		return p
 	}
 	r.extraFiles(j, fargs)
@@ -793,7 +800,10 @@ func (r *Run) outKind(j *JobRec, p, name, content string) (string, bool) {
 		// (half of them in a directory whose path merely begins like the pipestance's)
 		d := path.Join(r.Root, "ext")
 		if hash64(j.Key(), j.Phase, name, "extdir")%2 == 0 {
-			d = r.PsDir + "_archive"
+			d = path.Join(r.Root, "ps_archive")
+			if r.Cfg.LinkedRoot {
+				d = r.PsDir + "_archive"
+			}
 		}
 		os.MkdirAll(d, 0755)
 		ep := path.Join(d, fmt.Sprintf("ext_%x", hash64(j.Key(), j.Phase, name)))
